@@ -11,6 +11,7 @@ and a point lookup returns what the reference map returns.
 import Jamm.Proofs.TxLemmas
 import Jamm.Proofs.CursorLemmas
 import Jamm.Proofs.FileCheckLemmas
+import Jamm.Proofs.OverlayLemmas
 set_option linter.unusedSectionVars false
 open Std
 
@@ -74,5 +75,21 @@ example :
     wfb none none t = true ∧
     ([TxOp.del 20, TxOp.put 3 9].foldl Tree.applyOp t).flatten = [(3, 9), (10, 1), (30, 3)] := by
   decide
+
+/-! ### the tie used by the correspondence run.  After every edit of a write transaction the run compares the
+real overlay tree (dumped through the feature-gated hook) with `Tree.refill committed (contents)`: the
+committed tree with its leaves emptied and every item of the current contents put back.  These theorems say
+that this order-free prediction *is* the tree the model's edits produce one by one. -/
+
+/-- leaf edits never change the branch structure (keys, page ids) -/
+theorem edits_keep_branch_structure (t : Tree K E) (key : K) (e : E) :
+    (t.put key e).emptied = t.emptied ∧ (t.del key).emptied = t.emptied :=
+  ⟨emptied_put t key e, emptied_del t key⟩
+
+/-- for every sequence of edits: the overlay predicted from the committed tree and the final contents is the
+tree obtained by applying the edits in order -/
+theorem overlay_prediction_is_exact (t0 : Tree K E) (h : WF none none t0) (ops : List (TxOp K E)) :
+    t0.refill (ops.foldl Tree.applyOp t0).flatten = ops.foldl Tree.applyOp t0 :=
+  refill_eq_edits t0 h ops
 
 end Jamm.Props.C07
